@@ -37,4 +37,12 @@ META = {
    technique="contract-based deductive verification of get_best_soft_alignment (same chain as C01 with the cover program)",
    level="Every unit occurs at least once, unitary alignments are well formed over the continuum's own units, the solution is optimal "
          "among covers made of candidates.", note="As C01 / C02."),
+ "C13": dict(
+   technique="contract-based deductive verification of every mutating / observing Continuum operation against an abstract view "
+             "(annotator set, unit set per annotator, category set, bounds) over a model of sortedcontainers whose precondition "
+             "(Unit.__lt__ is the documented strict total order) is itself proved; __eq__ by a bounded stand-in",
+   level="Each operation requires the representation invariant and ensures it together with the whole new view (frame included), so "
+         "by induction every history yields the plain set-per-annotator model; zero-length rejection is an iff with the view unchanged; "
+         "copy / merge / __add__ results are proved fresh and disjoint from their sources.",
+   note="Assumed: sortedcontainers / deepcopy / pyannote Segment models. Bounded only: __eq__, __ne__, __getitem__, iterunits."),
 }
